@@ -114,6 +114,32 @@ def compute(tier, seed):
             for c in g["cases"]:
                 cases[c["id"]] = c
         shards += rshards
+    # C16 / C11: the same derive used from crates of the other editions (tokens the derive emits with a span of the USER's
+    # input are read in the user's edition: method resolution of `.into_iter()` on arrays, path resolution of `::core`, ...)
+    eds = {"cases": 0, "events": 0, "editions": []}
+    if os.environ.get("VERIF_NO_EDITIONS") != "1":
+        for k, ed in enumerate(("2015", "2018", "2024")):
+            epl = corpus_rt.build_plan("editions", seed)
+            for g in epl.groups:
+                g["id"] = f"e{ed}" + g["id"]
+                for c in g["cases"]:
+                    c["id"] += 3000000 + 100000 * k
+                    c["label"] = f"edition{ed}:" + c["label"]
+            ecrate = os.path.join(WORK, "rt", "edition" + ed)
+            emeta = corpus_rt.write_crate(epl, ecrate, cases_per_bin=40, edition=ed)
+            ecases = {c["id"]: c for g in epl.groups for c in g["cases"]}
+            efailed, eshards, eaborts = run_rt.build_and_run(ecrate, emeta, ecases, os.path.join(ecrate, "traces"), log=log)
+            eds["cases"] += len(ecases)
+            eds["events"] += sum(s_["events"] for s_ in eshards)
+            eds["editions"].append(ed)
+            for b in emeta["bins"]:
+                b["src"] = os.path.relpath(os.path.join(ecrate, b["src"]), crate)
+                b["script"] = os.path.relpath(os.path.join(ecrate, b["script"]), crate)
+            meta["bins"] += emeta["bins"]
+            cases.update(ecases)
+            failed.update(efailed)
+            shards += eshards
+            aborts += eaborts
     viols, jst = judge.judge_shards(shards, log=log)
     cov = coverage_counts(shards, meta)
     cm = {}
@@ -141,7 +167,7 @@ def compute(tier, seed):
     kinds = collections.Counter(g["kind"] for g in pl.groups for _ in g["cases"])
     return {"tier": tier, "seed": seed, "violations": out, "cases": {str(k): v for k, v in cm.items()},
             "failed": {str(k): v for k, v in failed.items()}, "coverage": cov,
-            "tlc": {"stimuli": pl.stim_stats, "judge": jst}, "aborts": aborts, "miri": miri, "release": rel,
+            "tlc": {"stimuli": pl.stim_stats, "judge": jst}, "aborts": aborts, "miri": miri, "release": rel, "editions": eds,
             "n_cases": len(cases), "n_groups": len(pl.groups), "kinds": dict(kinds),
             "events": sum(s["events"] for s in shards), "shards": len(shards), "crate": crate}
 
